@@ -233,7 +233,7 @@ impl Check for C01 {
         "C01"
     }
     fn ncases(&self, tier: Tier) -> u64 {
-        tier.sz(20000, 300000)
+        tier.sz(80000, 1500000)
     }
     fn rule(&self) -> &'static str {
         "one generated grammar per case (families: random-small, nullable-heavy, recursive, LR(1)-not-LALR templates, precedence expression grammars, dangling else, reduce/reduce), built with from_yacc; LR(1) certificate checked on every state/item/cell; then sampled sentences, 1-3-edit mutants, random strings and (small alphabets) every string up to length 4/5 parsed with recovery off: accepted => valid derivation of exactly the input; conflict-free precedence-free grammars additionally accepted <=> Earley member. Non-trivial = grammar has >= 2 rules and a recursive or nullable rule and both an accepted and a rejected input were observed; distinct by normalised grammar text."
@@ -245,12 +245,14 @@ impl Check for C01 {
         ]
     }
     fn floor(&self, tier: Tier) -> u64 {
-        tier.sz(4000, 50000)
+        tier.sz(8000, 100000)
     }
     fn required_counters(&self, _t: Tier) -> Vec<&'static str> {
         vec!["certified_states", "accepted", "rejected", "completeness_checked", "exhaustive_strings"]
     }
     fn run_case(&self, seed: u64, idx: u64, tier: Tier) -> CaseOut {
+        // thorough tier: every third case draws its random grammars from the medium-sized family
+        set_size_boost(tier == Tier::Thorough && idx % 3 == 1);
         let mut out = CaseOut::new();
         let mut rng = Rng::derive(seed, "C01", idx, 0);
         let ag = if rng.chance(1, 2) { gen_lr1(&mut rng) } else { gen_mixed(&mut rng, true) };
